@@ -10,6 +10,7 @@ import Blue.Proofs.ScanSpec
 import Blue.Proofs.ScanCongr
 import Blue.Proofs.Stack
 import Blue.Driver.C08
+import Blue.Proofs.CursorWorld
 /-! # Property C07 — a scan cursor is a stable, memory-safe snapshot while the store moves under it
 
 Property theorems only.  A cursor returned by `KeyValueStore::range_scan` captures, under the state
@@ -44,7 +45,27 @@ timestamp.  Three things keep it a snapshot:
   rollover, flush, version install by compaction / trivial move / garbage collection, trash
   clean-up) is the no-op token `Tok.other` of this model: that they leave the captured components
   alone is by construction here; what they do to the files is the `files` part, to the nodes the
-  `memory` part, and nothing links the three parts in one state machine.
+  `memory` part; the three parts are linked in one state machine by the next item.
+* **one state machine** (`Blue.CursorWorld`, block `CursorWorld`): the PRODUCT of a `Blue.FileRefs`
+  state, one `Blue.SkipOwn` state per memtable ever made, one `Blue.Snap.Held` per cursor, and the set
+  of cursors (handles = (memtable, iterator) pairs, captured version, read timestamp, position,
+  live flag).  Events `write`, `rollover`, `flush` (drops the store's handle on the immutable
+  memtable and installs the version with the new file), `compactInstall`, `verifierPass`,
+  `openCursor`, `stepCursor`, `dropCursor`, each DEFINED BY the component models' steps.  By
+  induction over every event list from the freshly opened store: `world_inv` (the three component
+  invariants + the coupling: `Arc` count of a version = live cursors on it (+1 if current), a live
+  cursor's files are in `sst/`, its handles are held iterators of memtables that have released
+  nothing), `cursor_step_safe` / `cursor_step_enabled` (every call on a live cursor is enabled and
+  touches only unreleased nodes and files present in `sst/`), `cursor_shows_open_time_contents` /
+  `cursor_unmoved_by_store` (the calls return what the reference cursor over the list captured at open
+  time returns = what they return in the run with nothing but those calls after the open, whatever
+  was interleaved — hypothesis (i) below is discharged inside this machine, where a write is one
+  atomic event), `drop_releases` (a non-current version without live cursor is un-held and
+  un-counted; a memtable without store handle and without live cursor handle has released every
+  node).  Simplifications of that machine: writes are atomic (writers in flight are C06), `flush`
+  = install + `imm := None` in one event (the window between them is not an event), the store's
+  handle stands for every `Arc<MemTable>` that is not a cursor's, compaction outputs are arbitrary
+  file lists (their correctness is C01/C05).
 
 **Partial**, and why: (1) hypothesis (i) — no entry with sequence number ≤ the read timestamp is
 added to a captured memtable (mutable or immutable) after the open — is a hypothesis here.  It was
@@ -380,6 +401,178 @@ theorem timestamp_published_early_shows_part_of_a_batch :
 
 end contents
 
+-- BEGIN CursorWorld
+/-! ## one state machine: files × memory × contents × open cursors (`Blue.CursorWorld`) -/
+section CursorWorld
+open Blue.Spec Blue.Cursor
+variable {F K : Type} [DecidableEq F] [DecidableEq K]
+
+/-- **(1) the invariant of the product**: in every state reached from a freshly opened store by ANY
+    list of the events `write`, `rollover`, `flush` (drops the store's handle on the immutable
+    memtable AND installs the version with the new file), `compactInstall` (installs a version,
+    releases the old one: files whose count drops to zero go to `trash/`), `verifierPass` (unlinks
+    `trash/`), `openCursor`, `stepCursor`, `dropCursor` — each defined by the steps of `Blue.FileRefs`,
+    `Blue.SkipOwn`, `Blue.Snap` on its component —: the three component invariants; the `Arc` count of
+    every version is EXACTLY the number of live cursors that captured it (+ 1 for the current one);
+    and for every live cursor: its version is referenced, every file of it is in `sst/`, every
+    memtable handle it captured is a held iterator of a memtable that has released no node -/
+theorem world_inv {klt : K → K → Bool} {tomb : Ver K → Bool} (files : List F) (data : List (F × List (Ver K)))
+    (evs : List (Blue.CursorWorld.Ev F K)) {s : Blue.CursorWorld.St F K}
+    (hr : Blue.CursorWorld.run klt tomb (Blue.CursorWorld.init files data) evs = some s) :
+    (Blue.FileRefs.Inv s.files ∧ (∀ tb ∈ s.tables, Blue.SkipOwn.Inv tb) ∧ Blue.CursorWorld.SnapInv klt tomb s) ∧
+    (∀ i, i < s.files.versions.length →
+      Blue.FileRefs.holdersAt s.files i
+        = Blue.CursorWorld.outOf s i + (if i + 1 = s.files.versions.length then 1 else 0)) ∧
+    ∀ (i : Nat) (c : Blue.CursorWorld.Cur K), s.cursors[i]? = some c → c.live = true →
+      Blue.FileRefs.holdersAt s.files c.ver ≥ 1 ∧
+      (∀ f ∈ Blue.CursorWorld.filesOf s.files c.ver, f ∈ s.files.sst) ∧
+      ∀ x ∈ c.hs, ∃ tb, s.tables[x.1]? = some tb ∧ Blue.SkipOwn.held tb x.2 = true ∧ tb.freed = [] :=
+  Blue.CursorWorld.world_inv files data evs hr
+
+/-- **(2) memory-safe AND files present, on ONE state machine**: a `stepCursor` taken in any reached
+    state goes through a live cursor; every memtable it dereferences has released no node and no
+    use after free has happened before or happens by it; every file of its version is in `sst/`.
+    ("In `sst/`" is the statement: the model's `trash` is the list of names renamed away, and a
+    name can be linked again by a later install, so "not in `trash`" is not an invariant of
+    `Blue.FileRefs`; the lazy cursors open `sst/<name>`.) -/
+theorem cursor_step_safe {klt : K → K → Bool} {tomb : Ver K → Bool} (files : List F) (data : List (F × List (Ver K)))
+    (evs : List (Blue.CursorWorld.Ev F K)) {s s' : Blue.CursorWorld.St F K}
+    (hr : Blue.CursorWorld.run klt tomb (Blue.CursorWorld.init files data) evs = some s) (i : Nat) (o : Op (Ver K))
+    (hs : Blue.CursorWorld.step klt tomb s (.stepCursor i o) = some s') :
+    ∃ c, s.cursors[i]? = some c ∧ c.live = true ∧
+      (∀ x ∈ c.hs, ∃ tb, s.tables[x.1]? = some tb ∧ Blue.SkipOwn.held tb x.2 = true ∧ tb.freed = [] ∧ tb.uaf = false) ∧
+      (∀ f ∈ Blue.CursorWorld.filesOf s.files c.ver, f ∈ s.files.sst) ∧
+      (∀ tb ∈ s'.tables, tb.uaf = false) :=
+  Blue.CursorWorld.cursor_step_safe files data evs hr i o hs
+
+/-- … and the step is ENABLED for every live cursor of every reached state: (2) is about every call
+    a client can make, whatever flushes, compactions and clean-ups came in between -/
+theorem cursor_step_enabled {klt : K → K → Bool} {tomb : Ver K → Bool} (files : List F) (data : List (F × List (Ver K)))
+    (evs : List (Blue.CursorWorld.Ev F K)) {s : Blue.CursorWorld.St F K}
+    (hr : Blue.CursorWorld.run klt tomb (Blue.CursorWorld.init files data) evs = some s) (i : Nat)
+    (c : Blue.CursorWorld.Cur K) (hc : s.cursors[i]? = some c) (hl : c.live = true) (o : Op (Ver K)) :
+    ∃ s', Blue.CursorWorld.step klt tomb s (.stepCursor i o) = some s' :=
+  Blue.CursorWorld.cursor_step_enabled files data evs hr i c hc hl o
+
+/-- **(3) the cursor shows the contents of open time**: a cursor opened after any run `evs1` and then
+    subjected to ANY interleaving `evs2` of store events and steps of this and other cursors returns,
+    call by call, what the reference cursor over the list captured at OPEN time returns — i.e. what
+    it would have returned had nothing happened since (`Blue.Snap.run_eq_ref` composed with the run;
+    hypothesis (i) of `cursor_sees_snapshot_partial` is discharged INSIDE this machine: a write is
+    numbered above every read timestamp taken before it; writes are atomic events here, writers in
+    flight are C06) -/
+theorem cursor_shows_open_time_contents {klt : K → K → Bool} (st : StrictTotal klt) (tomb : Ver K → Bool)
+    (files : List F) (data : List (F × List (Ver K))) (evs1 evs2 : List (Blue.CursorWorld.Ev F K)) (sb eb : Bound K)
+    {s1 s2 s3 : Blue.CursorWorld.St F K}
+    (h1 : Blue.CursorWorld.run klt tomb (Blue.CursorWorld.init files data) evs1 = some s1)
+    (h2 : Blue.CursorWorld.step klt tomb s1 (.openCursor sb eb) = some s2)
+    (h3 : Blue.CursorWorld.run klt tomb s2 evs2 = some s3) :
+    ∃ c, s3.cursors[s1.cursors.length]? = some c ∧
+      c.outs = Ref.run ⟨Blue.Snap.view klt tomb sb eb (Blue.CursorWorld.capture s1), 0⟩
+        (Blue.CursorWorld.callsOf s1.cursors.length evs2) :=
+  Blue.CursorWorld.cursor_shows_open_time_contents st tomb files data evs1 evs2 sb eb h1 h2 h3
+
+/-- **(3) in the words of the property**: what a cursor returned during ANY interleaving `evs2` of
+    store events and cursor steps is what it returns in the QUIET run — the run in which nothing
+    happens after its open but its own calls — and that quiet run exists (every call is enabled) -/
+theorem cursor_unmoved_by_store {klt : K → K → Bool} (st : StrictTotal klt) (tomb : Ver K → Bool)
+    (files : List F) (data : List (F × List (Ver K))) (evs1 evs2 : List (Blue.CursorWorld.Ev F K)) (sb eb : Bound K)
+    {s1 s2 s3 : Blue.CursorWorld.St F K}
+    (h1 : Blue.CursorWorld.run klt tomb (Blue.CursorWorld.init files data) evs1 = some s1)
+    (h2 : Blue.CursorWorld.step klt tomb s1 (.openCursor sb eb) = some s2)
+    (h3 : Blue.CursorWorld.run klt tomb s2 evs2 = some s3) :
+    ∃ (q : Blue.CursorWorld.St F K) (c cq : Blue.CursorWorld.Cur K),
+      Blue.CursorWorld.run klt tomb s2 ((Blue.CursorWorld.callsOf s1.cursors.length evs2).map
+        (fun o => (Blue.CursorWorld.Ev.stepCursor s1.cursors.length o : Blue.CursorWorld.Ev F K))) = some q ∧
+      s3.cursors[s1.cursors.length]? = some c ∧ q.cursors[s1.cursors.length]? = some cq ∧ c.outs = cq.outs :=
+  Blue.CursorWorld.cursor_unmoved_by_store st tomb files data evs1 evs2 sb eb h1 h2 h3
+
+/-- **(4) nothing leaks** (`freed_iff_no_holder` lifted to the product): in every reached state a
+    version that is not the current one and that no live cursor captured has no holder and is no
+    longer counted (its `explicit_unref` has run: each of its files was decremented, those that
+    reached zero moved to `trash/`); a memtable the store no longer holds (flushed) and on which no
+    live cursor has a handle has released EVERY node; while the store or a live cursor holds it, none -/
+theorem drop_releases {klt : K → K → Bool} {tomb : Ver K → Bool} (files : List F) (data : List (F × List (Ver K)))
+    (evs : List (Blue.CursorWorld.Ev F K)) {s : Blue.CursorWorld.St F K}
+    (hr : Blue.CursorWorld.run klt tomb (Blue.CursorWorld.init files data) evs = some s) :
+    (∀ (i : Nat) (v : Blue.FileRefs.Ver F), s.files.versions[i]? = some v → i + 1 < s.files.versions.length →
+      Blue.CursorWorld.outOf s i = 0 → v.holders = 0 ∧ v.counted = false) ∧
+    (∀ (t : Nat) (tb : Blue.SkipOwn.St), s.tables[t]? = some tb →
+      ((tb.listHeld = true ∨ ∃ (i : Nat) (c : Blue.CursorWorld.Cur K) (j : Nat),
+          s.cursors[i]? = some c ∧ c.live = true ∧ (t, j) ∈ c.hs) → tb.freed = []) ∧
+      (tb.listHeld = false →
+        (∀ (i : Nat) (c : Blue.CursorWorld.Cur K) (j : Nat), s.cursors[i]? = some c → c.live = true → (t, j) ∉ c.hs) →
+        tb.freed = List.range tb.nodes)) :=
+  Blue.CursorWorld.drop_releases files data evs hr
+
+/-- the run of the non-vacuity examples: a write, a cursor is opened (captures memtable 0 and
+    version 0 = files 1, 2), a write, the rollover, the flush of memtable 0 into file 7 (the store
+    drops its handle; version 1 = 1, 2, 7), a compaction installs version 2 = file 8 (version 1 is
+    released: file 7 goes to `trash/`; 1 and 2 stay, the cursor holds version 0), a verifier pass
+    unlinks 7, the cursor steps three times -/
+def worldRun : List (Blue.CursorWorld.Ev Nat Nat) :=
+  [.write 3, .openCursor .unbounded .unbounded, .write 4, .rollover, .flush 7,
+   .compactInstall [8] [(8, [(1, 0), (3, 1), (4, 2), (5, 0)])], .verifierPass,
+   .stepCursor 0 .first, .stepCursor 0 .next, .stepCursor 0 .next]
+
+/-- what the examples look at, store side: (`sst/`, `trash/`, unlinked names); per memtable (the store
+    holds it, count, released nodes, use-after-free flag) -/
+def worldObs (s : Blue.CursorWorld.St Nat Nat) : (List Nat × List Nat × List Nat) × List (Bool × Nat × List Nat × Bool) :=
+  ((s.files.sst, s.files.trash, s.unlinked), s.tables.map (fun t => (t.listHeld, t.rc, t.freed, t.uaf)))
+
+/-- … cursor side: per cursor (live, handles, version, results); per version (files, holders, counted) -/
+def worldObsC (s : Blue.CursorWorld.St Nat Nat) :
+    List (Bool × List (Nat × Nat) × Nat × List (Option (Nat × Nat))) × List (List Nat × Nat × Bool) :=
+  (s.cursors.map (fun c => (c.live, c.hs, c.ver, c.outs)), s.files.versions.map (fun v => (v.files, v.holders, v.counted)))
+
+set_option synthInstance.maxSize 2048 in
+/-- non-vacuity of (1)–(3): after flush, compaction install and verifier pass the cursor's files 1, 2
+    are still in `sst/`, memtable 0 (dropped by the store, count 1 = the cursor's iterator) has
+    released nothing, and the three calls return the open-time contents — key 4, written after the
+    open, is not shown, and neither is anything of the compaction's output -/
+example :
+    (Blue.CursorWorld.run Nat.blt (fun _ => false) (Blue.CursorWorld.init [1, 2] [(1, [(1, 0)]), (2, [(5, 0)])])
+      worldRun).map worldObs
+    = some (([1, 2, 8], [], [7]), [(false, 1, [], false), (true, 1, [], false)])
+    ∧ (Blue.CursorWorld.run Nat.blt (fun _ => false) (Blue.CursorWorld.init [1, 2] [(1, [(1, 0)]), (2, [(5, 0)])])
+      worldRun).map worldObsC
+    = some ([(true, [(0, 0)], 0, [none, some (1, 0), some (3, 1)])],
+        [([1, 2], 1, true), ([1, 2, 7], 0, false), ([8], 1, true)]) := by decide
+
+set_option synthInstance.maxSize 2048 in
+/-- non-vacuity of (4): the drop of the cursor releases the three nodes of memtable 0 and moves files
+    1, 2 to `trash/`; the next verifier pass unlinks them; a step through the dropped cursor is not
+    an event -/
+example :
+    (Blue.CursorWorld.run Nat.blt (fun _ => false) (Blue.CursorWorld.init [1, 2] [(1, [(1, 0)]), (2, [(5, 0)])])
+      (worldRun ++ [.dropCursor 0])).map worldObs
+    = some (([8], [2, 1], [7]), [(false, 0, [0, 1, 2], false), (true, 1, [], false)])
+    ∧ (Blue.CursorWorld.run Nat.blt (fun _ => false) (Blue.CursorWorld.init [1, 2] [(1, [(1, 0)]), (2, [(5, 0)])])
+      (worldRun ++ [.dropCursor 0])).map worldObsC
+    = some ([(false, [(0, 0)], 0, [none, some (1, 0), some (3, 1)])],
+        [([1, 2], 0, false), ([1, 2, 7], 0, false), ([8], 1, true)])
+    ∧ (Blue.CursorWorld.run Nat.blt (fun _ => false) (Blue.CursorWorld.init [1, 2] [(1, [(1, 0)]), (2, [(5, 0)])])
+      (worldRun ++ [.dropCursor 0, .verifierPass])).map (fun s => (s.files.sst, s.files.trash, s.unlinked))
+    = some ([8], [], [7, 2, 1])
+    ∧ (Blue.CursorWorld.run Nat.blt (fun _ => false) (Blue.CursorWorld.init [1, 2] [(1, [(1, 0)]), (2, [(5, 0)])])
+      (worldRun ++ [.dropCursor 0, .stepCursor 0 .next])).isNone = true := by decide
+
+/-- the hypotheses of (3) on that run: the cursor is opened after `[write 3]`, the other eight
+    events follow -/
+example :
+    ∃ s1 s2 s3,
+      Blue.CursorWorld.run Nat.blt (fun _ => false) (Blue.CursorWorld.init [1, 2] [(1, [(1, 0)]), (2, [(5, 0)])]) [.write 3] = some s1 ∧
+      Blue.CursorWorld.step Nat.blt (fun _ => false) s1 (.openCursor .unbounded .unbounded) = some s2 ∧
+      Blue.CursorWorld.run Nat.blt (fun _ => false) s2 (worldRun.drop 2) = some s3 ∧
+      Blue.CursorWorld.callsOf 0 (worldRun.drop 2) = [Op.first, .next, .next] ∧
+      Blue.Snap.view Nat.blt (fun _ => false) .unbounded .unbounded (Blue.CursorWorld.capture s1) = [(1, 0), (3, 1), (5, 0)] := by
+  refine ⟨_, _, _, rfl, rfl, rfl, ?_, ?_⟩
+  · rfl
+  · decide
+
+end CursorWorld
+-- END CursorWorld
+
 end Blue.Props.C07
 
 #print axioms Blue.Props.C07.held_files_present
@@ -407,3 +600,9 @@ end Blue.Props.C07
 #print axioms Blue.Props.C07.cursor_never_shows_later_completion
 #print axioms Blue.Props.C07.snapshot_excludes_writes_in_flight
 #print axioms Blue.Props.C07.timestamp_published_early_shows_part_of_a_batch
+#print axioms Blue.Props.C07.world_inv
+#print axioms Blue.Props.C07.cursor_step_safe
+#print axioms Blue.Props.C07.cursor_step_enabled
+#print axioms Blue.Props.C07.cursor_shows_open_time_contents
+#print axioms Blue.Props.C07.cursor_unmoved_by_store
+#print axioms Blue.Props.C07.drop_releases
